@@ -134,8 +134,25 @@ class SpecMixin:
         return TV("val", z3.If(c, self.to_val(a), self.to_val(b)), hint)
 
     def spec_boolop(self, n, frame):
-        ts = [self.truthy(self.eval(e, frame)) for e in n.values]
-        return TV("bool", z3.And(*ts) if isinstance(n.op, ast.And) else z3.Or(*ts))
+        # Python evaluates `a and b` / `a or b` left to right and stops early: the side facts
+        # (well-definedness of partial operations) of a later operand are only needed when the
+        # earlier operands did not decide the result, so they are guarded by them
+        is_and = isinstance(n.op, ast.And)
+        ts = []
+        for e in n.values:
+            if ts:
+                decided = z3.simplify(z3.And(*ts) if is_and else z3.Or(*ts))
+                if (is_and and z3.is_false(decided)) or (not is_and and z3.is_true(decided)):
+                    break  # statically decided: Python would not evaluate the rest
+            side = self.spec_side
+            mark = len(side) if side is not None else 0
+            t = self.truthy(self.eval(e, frame))
+            if ts and side is not None and len(side) > mark:
+                guard = z3.And(*ts) if is_and else z3.Not(z3.Or(*ts))
+                for k in range(mark, len(side)):
+                    side[k] = z3.Implies(guard, side[k])
+            ts.append(t)
+        return TV("bool", z3.And(*ts) if is_and else z3.Or(*ts))
 
     def with_heap(self, heap, fn):
         saved = self.heap
@@ -201,6 +218,14 @@ class SpecMixin:
             if nm == "is_instance":
                 x = self.eval(n.args[0], frame)
                 return TV("bool", self.isinstance_cond(x, [n.args[1].value]))
+            if nm in ("split_len", "split_at"):
+                # the parts of s.split(sep) (the same uninterpreted functions the code-level str.split uses)
+                st = self.as_str(self.eval(n.args[0], frame))
+                sep = self.as_str(self.eval(n.args[1], frame))
+                if nm == "split_len":
+                    return TV("int", z3.Function("split_len", core.StrS, core.StrS, core.IntS)(st, sep))
+                row = z3.Function("split_row", core.StrS, core.StrS, z3.ArraySort(core.IntS, Val))(st, sep)
+                return TV("val", z3.Select(row, self.as_int(self.eval(n.args[2], frame))), "str")
             if nm == "is_none":
                 x = self.eval(n.args[0], frame)
                 return TV("bool", self.val_eq(x, tv_none()))
@@ -337,7 +362,59 @@ class SpecMixin:
             b = z3.And(*(rng + dep + [body]))
         else:
             b = z3.And(*(rng + [z3.Implies(z3.And(*dep), body) if dep else body]))
-        return TV("bool", z3.Exists(js, b))
+        ex = z3.Exists(js, b)
+        if not assume and sort == "val" and len(js) == 1 and lo is None and not getattr(self, "_in_witness", False):
+            # witness candidates: (exists x. B(x)) is equivalent to (exists x. B(x)) or B(t1) or ... for any
+            # terms t_k, in either polarity; the instances for the values the clause's environment already
+            # names spare the solver the search for the witness (it is not good at it)
+            pool, seen = [], set()
+            ctx_env = getattr(getattr(self, "spec_ctx", None), "env", {}) or {}
+            f = frame
+            frames_vars = []
+            while f is not None:
+                frames_vars.append(f.vars)
+                f = f.parent
+            for src in frames_vars + [ctx_env]:
+                for tv in src.values():
+                    if getattr(tv, "k", None) in ("val", "str") and hasattr(tv.r, "get_id"):
+                        i = tv.r.get_id()
+                        if i not in seen and not any(mentions(tv.r, j) for j in js):
+                            seen.add(i)
+                            pool.append(tv)
+            # ... and the arguments / results of the most recent calls (values no variable names any more)
+            for ev_ in list(getattr(self, "trace", []))[-4:]:
+                args_ = ev_.get("args") or []
+                args_ = list(args_.values()) if isinstance(args_, dict) else list(args_)
+                for v_ in args_[:3] + [ev_.get("result")]:
+                    v_ = getattr(v_, "r", v_) if getattr(v_, "k", None) == "val" else v_
+                    if v_ is not None and hasattr(v_, "get_id") and v_.sort() == Val and v_.get_id() not in seen:
+                        seen.add(v_.get_id())
+                        pool.append(TV("val", v_))
+            inst = []
+            self._in_witness = True
+            try:
+                for tv in pool[:14]:
+                    fr2 = Frame(parent=frame, func=frame.func)
+                    fr2.vars[names[0]] = TV("val", self.to_val(tv))
+                    outer2 = self.spec_side
+                    self.spec_side = []
+                    self._in_quant = getattr(self, "_in_quant", 0) + 1
+                    try:
+                        bt = self.truthy(self.eval(lam.body, fr2))
+                        side_t = self.spec_side
+                    except (PyRaise, Unsupported):
+                        continue
+                    finally:
+                        self.spec_side = outer2
+                        self._in_quant -= 1
+                    # (side facts of an instance do not mention the bound variable: valid facts, like `indep`)
+                    self.spec_side.extend(side_t)
+                    inst.append(bt)
+            finally:
+                self._in_witness = False
+            if inst:
+                return TV("bool", z3.Or(ex, *inst))
+        return TV("bool", ex)
 
     def spec_fn(self, sf, args):
         sorts = []
